@@ -81,23 +81,18 @@ func NewLevelListFromDocument(fs storage.FileSystem, dataOwnership kv.DataOwners
 }
 
 func (ll *LevelList) Get(key []byte) (kv.Entry, error) {
-	// L0 tables overlap, so the newest version among the L0 tables wins. Deeper
-	// levels hold older data and at most one table per level can have the key.
+	// The version with the highest sequence number wins. L0 tables overlap, and
+	// after merging the checkpoints of several instances (rescaling) a partial
+	// compaction can move a table beneath another instance's older version of a
+	// key, so the first hit is not necessarily the newest one.
 	var newest kv.Entry
-	l0 := ll.At(0).tables
 	for t := range ll.AllTablesForKey(key) {
-		if newest != nil && !l0.Has(t) {
-			break
-		}
 		v, err := t.Get(key)
 		if err != nil {
 			if err == kv.ErrNotFound {
 				continue
 			}
 			return nil, fmt.Errorf("table %#v, %w", t, err)
-		}
-		if !l0.Has(t) {
-			return v, nil
 		}
 		if newest == nil || v.SeqNum() > newest.SeqNum() {
 			newest = v
